@@ -39,9 +39,10 @@ def run_variant(pid, variant, repo):
             path = os.path.join(tmp, ed['file'])
             text = open(path, encoding='utf-8').read()
             n = text.count(ed['old'])
-            if n != 1:
-                return {'name': variant['name'], 'status': 'anchor-error', 'detail': 'old text occurs %d times in %s' % (n, ed['file'])}
-            open(path, 'w', encoding='utf-8').write(text.replace(ed['old'], ed['new']))
+            want = ed.get('occurrences', 1)
+            if n != want:
+                return {'name': variant['name'], 'status': 'anchor-error', 'detail': 'old text occurs %d times in %s (expected %d)' % (n, ed['file'], want)}
+            open(path, 'w', encoding='utf-8').write(text.replace(ed['old'], ed['new'], 1))
         env = dict(os.environ, VERIF_REPO=tmp, VERIF_EVIDENCE_DIR=os.path.join(tmp, '_evidence'), VERIF_TIER='quick')
         pr = subprocess.run([os.path.join(VERIF, 'check'), pid], env=env, capture_output=True, text=True, timeout=600)
         fails = [l.split()[1] for l in pr.stdout.splitlines() if l.strip().startswith('FAIL ')]
